@@ -68,12 +68,53 @@ fn far_history(ctx: &mut Ctx) {
     }
 }
 
+/// C18 doubly certified slots: a slot after the highest finalized one that holds a notarization (or
+/// notar-fallback) certificate and a skip certificate at the same time (20 % of the stake voted notar and then
+/// skip-fallback). Both are "held for a later slot", so both belong in the bundle; every arrival order.
+fn double_cert_slots(ctx: &mut Ctx) {
+    use crate::poolsim::Op;
+    use crate::wire::CK;
+    let mut rng = ctx.rng("c18-double");
+    let stakes = vec![1u64; 5];
+    let ep = make_epoch(&mut rng, &stakes, "equal");
+    let cfg = RunCfg { late_links: false, jitter: 0.0, dup_votes: 0.0, cert_frac: 0.0, block_frac: 0.0, standstill_every: 0, waiters: false, check_bundle_replay: true };
+    let all: Vec<usize> = (0..5).collect();
+    let h = Some([0x33; 32]);
+    for own in [0usize, 2, 4] {
+        for (fin, slot) in [(0u64, 2u64), (1, 3), (2, 3)] {
+            for block_kind in [CK::Notar, CK::NotarFallback] {
+                for skip_first in [false, true] {
+                    let block_cert = match block_kind {
+                        CK::Notar => Op::Cert(CK::Notar, slot, h, vec![0, 1, 2], vec![]),
+                        _ => Op::Cert(CK::NotarFallback, slot, h, vec![0, 1], vec![2]),
+                    };
+                    let skip_cert = Op::Cert(CK::Skip, slot, None, vec![3, 4], vec![2]);
+                    let mut ops = vec![];
+                    if fin > 0 {
+                        ops.push(Op::Cert(CK::FastFinal, fin, Some([0x11; 32]), all.clone(), vec![]));
+                    }
+                    if skip_first {
+                        ops.extend([skip_cert, Op::Standstill, block_cert]);
+                    } else {
+                        ops.extend([block_cert, Op::Standstill, skip_cert]);
+                    }
+                    ops.push(Op::Standstill);
+                    run_ops(ctx, "C18", &mut rng, &ep, own, &ops, &cfg, "double-cert");
+                    ctx.count("double-cert-runs");
+                    ctx.distinct(format!("double-cert:{}:{}:{}", block_kind.name(), skip_first, fin.min(1)));
+                }
+            }
+        }
+    }
+}
+
 pub fn run(ctx: &mut Ctx, focus: &str, quick_total: u64, thorough_total: u64) -> Result<(), String> {
     if focus == "C04" {
         enumerate_vote_sequences(ctx);
     }
     if focus == "C18" && ctx.shard == 0 {
         far_history(ctx);
+        double_cert_slots(ctx);
     }
     let mut rng = ctx.rng("worlds");
     let iters = ctx.iters(quick_total, thorough_total);
